@@ -142,6 +142,22 @@ func fieldCorpus(r *hx.Rand) []Input {
 		out = append(out, repeatFrom("memcached", append(append([]byte{}, h...), fmt.Sprintf("set k 0 0 %s\r\n%s\r\n", n, data)...), 6+i%4, nil))
 		out = append(out, repeatFrom("memcached", append(append([]byte{}, h...), fmt.Sprintf("set k %s %s 5\r\n%s\r\nstats\r\n", n, n, data)...), 6, nil))
 	}
+	// memcached: every command kind with optional trailing tokens (noreply, extra arguments)
+	for i, cmd := range []string{"stats", "flush_all", "get k", "gets k", "delete k", "incr k 1", "decr k 1", "touch k 0", "version", "verbosity 1", "quit", "stats items", "flush_all 0"} {
+		for j, suffix := range []string{" noreply", " 0 noreply", " noreply noreply", " x"} {
+			p := append([]byte{0, byte(i), 0, 0, 0, 1, 0, 0}, cmd+suffix+"\r\n"...)
+			if (i+j)%4 == 0 { // inside a multi-command datagram
+				p = append(p, cmd+"\r\n"+cmd+suffix+"\r\n"...)
+			}
+			out = append(out, repeatFrom("memcached", p, 7, nil))
+		}
+	}
+	for _, verb := range []string{"set", "add", "replace", "append", "prepend", "cas"} {
+		for _, suffix := range []string{" noreply", " 7 noreply", ""} {
+			p := append([]byte{0, 1, 0, 0, 0, 1, 0, 0}, fmt.Sprintf("%s k 0 0 2%s\r\nab\r\n", verb, suffix)...)
+			out = append(out, repeatFrom("memcached", p, 7, nil))
+		}
+	}
 	// tftp: block numbers and block sizes
 	for i, blk := range []int{0, 1, 255, 256, 65535} {
 		for j, sz := range []int{0, 1, 511, 512, 513, 1024} {
@@ -154,6 +170,16 @@ func fieldCorpus(r *hx.Rand) []Input {
 				}
 			}
 			out = append(out, in)
+		}
+	}
+	// the opcode is a 16-bit field: every opcode with a non-zero high byte, well-formed body
+	for _, hi := range []byte{0x01, 0x80, 0xff} {
+		for op := byte(0); op <= 6; op++ {
+			body := []byte("f\x00octet\x00")
+			if op == 3 || op == 4 {
+				body = []byte{0, 1, 'x', 'y'}
+			}
+			out = append(out, repeatFrom("tftp", append([]byte{hi, op}, body...), 7, nil))
 		}
 	}
 	for _, opt := range []string{"8", "512", "1428", "65464", "65465", "4294967296", "-1"} {
